@@ -239,7 +239,8 @@ pub fn check(c: &TamperCase, ctx: &mut CaseCtx) -> Result<(), Fail> {
             format!("field:{}", FIELDS[*field as usize % 9])
         },
         Tamper::Txs { b, how, i, pos, bit, tx } => {
-            let h = pick(*b, n) as u64;
+            // the genesis transaction list is a recorded blind spot: go there only one time in four
+            let h = if i & 3 == 0 { pick(*b, n) as u64 } else { 1 + pick(*b, n - 1) as u64 };
             let (d, _) = read_rec(store, h).ok_or_else(|| Fail::new("tamper:setup:record", "no record"))?;
             let mut blk = blocks[h as usize].clone();
             mutate_txs(&mut blk, *how, *i, *pos, *bit, tx);
